@@ -138,6 +138,28 @@ def subscription_two_fields(rng, doc, s):
     return True
 
 
+@operator("SingleFieldSubscriptionsChecker")
+def subscription_two_fields_behind_a_fragment(rng, doc, s):
+    """The rule is stated on the collected fields: two root fields stay two behind an inline fragment or a
+    fragment spread, however many selections the operation itself writes."""
+    if not s.subscription:
+        return None
+    g = opgen.OpGen(rng, s)
+    g.doc = doc
+    op = g.operation(kind="subscription", name="SubFrag%d" % len(doc.operations))
+    if any(o.name is None for o in doc.operations):
+        for i, o in enumerate(doc.operations):
+            o.name = o.name or "N%d" % i
+    two = list(op.selection) + [opgen.OField("__typename", s.subscription, "second")]
+    if rng.random() < 0.5:
+        op.selection[:] = [opgen.OInline(s.subscription if rng.random() < 0.5 else None, two)]
+    else:
+        name = "SubRootFields%d" % len(doc.fragments)
+        doc.fragments[name] = opgen.OFragment(name, s.subscription, two)
+        op.selection[:] = [opgen.OSpread(name)]
+    return True
+
+
 @operator(("KnownTypeNamesChecker", "FragmentsOnCompositeTypesChecker", "VariablesAreInputTypesChecker"))
 def unknown_type_name(rng, doc, s):
     choices = []
